@@ -22,7 +22,7 @@ func init() {
 				Rule: fmt.Sprintf("all histories of depth <= %d (depth %d over a reduced alphabet in the thorough tier) on one connection of the full reference server (real loader, Start handler, ASCII/PAP handlers, bcrypt, stringy, local accounter) over an alphabet of ~85 abstract packets: "+
 					"ASCII START (user empty/known/unknown), PAP START (good/bad/empty password), unrouted STARTs, CONTINUE (user, password, junk, empty, abort), command and session authorization (permitted/denied/other user), accounting (start/stop/watchdog/invalid flags), "+
 					"undecodable bodies per type, trailing garbage, each on session A or B; sequence choices {expected, same, lower, even, jump, 255} on three kinds; rejected forms (invalid version, type, sequence 0, length 65537, wrong key). "+
-					"Configurations: keychain-backed user with a working and with a failing keychain. Oracle per request, from the connection-loop model: accepted => exactly one handler invocation, exactly one Reply call and exactly one packet "+
+					"Configurations: keychain-backed user with a working and with a failing keychain. Oracle per request, from the connection-loop model: accepted => exactly one handler invocation, at most one Reply call and exactly one packet "+
 					"(none iff numbered 255) before the next read, connection stays open; rejected => no handler invocation, at most one packet, connection closed. states = distinct loop-model states, transitions = packets delivered", d, d),
 				Assumptions: []string{"accept/reject is decided by mc/ref/connmodel.go; the only handler-dependent input of the model is whether the invoked handler registered a continuation (observed through a wrapping Response)",
 					"for bodies in the indeterminate key-mismatch class either complete behaviour is accepted (C19 owns that boundary)"}}
@@ -129,7 +129,8 @@ func c07Oracle(s stepInfo) (kind, msg string) {
 	if len(s.Calls) != 1 {
 		return "handler-count", fmt.Sprintf("accepted request caused %d handler invocations", len(s.Calls))
 	}
-	if nReplies != 1 {
+	if nReplies > 1 {
+		// (a handler may legitimately answer through Response.Write instead of Reply; only a second Reply is wrong)
 		return fmt.Sprintf("reply-calls-%d", nReplies), fmt.Sprintf("the handler path called Reply %d times for one request", nReplies)
 	}
 	want := 1
